@@ -44,6 +44,7 @@ package ice
 //@   site call writePacket#1 assert address-binding-wins: byAddr != 0 ==> arg0 == cast(byAddr, *udpMuxedConn)
 //@   site call writePacket#1 assert otherwise-only-by-ufrag: byAddr == 0 ==> viaUfrag
 //@   site call writePacket#1 assert delivers-the-received-bytes-and-true-source: arg1.base == buf.base && arg1.off == buf.off && len(arg1) == n && arg2 == srcAddrPort && arg3 == srcUDPAddr
+//@   site call writePacket#1 assert a-datagram-cut-short-by-the-read-buffer-is-dropped-never-delivered-truncated: n < len(buf)
 
 //@ func (*UDPMuxDefault).registerConnForAddress
 //@   props C12
